@@ -246,8 +246,8 @@ def run(rep, tier):
             # every source kept, labels spread with gaps (new child labels must not run into a surviving higher label)
             from photutils.segmentation import SegmentationImage
             k_ = segm.nlabels
-            lut = np.zeros(k_ + 1, dtype=segm.data.dtype)
-            lut[1:] = sorted(r.sample(range(1, k_ + 3), k_))
+            lut = np.zeros(int(segm.max_label) + 1, dtype=segm.data.dtype)
+            lut[np.asarray(segm.labels, int)] = sorted(r.sample(range(1, k_ + 3), k_))
             segm = SegmentationImage(lut[segm.data])
         if r.random() < 0.15:
             # narrow integer dtype whose range ends at the top label: new child labels do not fit (must be widened, never wrapped)
